@@ -251,6 +251,13 @@ pub fn run(op: &str, job: &Value) -> Value {
                         None => json!([i, null]),
                     }).collect();
                     out.insert("lists".to_string(), Value::Array(lists));
+                    // the object atoms: index -> (fields in key order, has an index signature)
+                    let mappings: Vec<Value> = ctx.mapping_definitions.iter().enumerate().map(|(i, d)| match d {
+                        Some(ma) => json!([i, {"fields": ma.vs.iter().map(|(k, t)| json!([k, crate::sem::semtype_json(t)])).collect::<Vec<_>>(),
+                                               "indexed": ma.indexed_properties.is_some()}]),
+                        None => json!([i, null]),
+                    }).collect();
+                    out.insert("mappings".to_string(), Value::Array(mappings));
                     Value::Object(out)
                 }
             }
